@@ -345,8 +345,11 @@ package templ
 //@   assert before sb.WriteString#1: !has(v.ss, cat("class_", ccc.ID))
 //@   assert after v.addClass#1: has(v.ss, cat("class_", ccc.ID))
 
-//@ func RenderCSSItems [C12, C10]
+// {C01}: what the runtime itself writes around the CSS is exactly the constant style start tag and the end tag (no
+// dynamic value reaches the tag)
+//@ func RenderCSSItems [C12, C10, C01]
 //@   modifies doc(w), failedDuring, cv().ss
+//@   ensures {C01} implies(err == nil, appended(w) == "" || (isPrefix("<style type=\"text/css\">", appended(w)) && isSuffix("</style>", appended(w))))
 //@   ensures isPrefix(old(sink(w)), sink(w))
 //@   ensures implies(err == nil, isPrefix(old(doc(w)), doc(w)) && failedDuring == old(failedDuring))
 //@   ensures implies(err != nil, failedDuring)
